@@ -167,9 +167,10 @@ def _nsame(a, b, path, bad, depth=0):
             _nsame(x, y, '%s[%d]' % (path, k), bad, depth + 1)
         return
     if isinstance(a, dict) and isinstance(b, dict):
-        if list(a.keys()) != list(b.keys()):
-            bad.append('%s: keys %r written, %r read' % (path, list(a.keys()), list(b.keys()))); return
-        for k in a:
+        ka, kb = [k for k in a if a[k] is not None], [k for k in b if b[k] is not None]
+        if set(ka) != set(kb):
+            bad.append('%s: keys %r written, %r read' % (path, ka, kb)); return
+        for k in ka:
             _nsame(a[k], b[k], '%s[%r]' % (path, k), bad, depth + 1)
         return
     if isinstance(a, str) and isinstance(b, str):
